@@ -29,6 +29,7 @@ func c20Scenario(name string, size int, submitters int, viaExecute bool, stopper
 	return vScn{name: name, horizon: time.Second, build: func() (func(), func(*vsched.Result) (string, []vScnBad)) {
 		var tasks []*c20Task
 		running, maxRunning := 0, 0
+		runningAfter, maxRunningAfter := 0, 0 // tasks that started after Resize had returned
 		sizeLimit := size
 		if resizeTo > sizeLimit {
 			sizeLimit = resizeTo
@@ -45,16 +46,27 @@ func c20Scenario(name string, size int, submitters int, viaExecute bool, stopper
 				body := func() interface{} {
 					t.runs++
 					inPool := !strings.HasPrefix(vsched.CurrentName(), "submit") // not the submitter's own fallback run
+					after := false
 					if inPool {
 						t.inPool++
 						running++
 						if running > maxRunning {
 							maxRunning = running
 						}
+						if resizeDone {
+							after = true
+							runningAfter++
+							if runningAfter > maxRunningAfter {
+								maxRunningAfter = runningAfter
+							}
+						}
 					}
 					vsched.Yield() // the task takes time: other threads may run meanwhile
 					if inPool {
 						running--
+						if after {
+							runningAfter--
+						}
 					}
 					return t.name
 				}
@@ -89,6 +101,9 @@ func c20Scenario(name string, size int, submitters int, viaExecute bool, stopper
 			}
 			if blocked := vNamedBlocked(res, "stopper", "resizer"); len(blocked) > 0 {
 				bad = append(bad, vScnBad{"stop-or-resize-never-returns", fmt.Sprintf("%v", blocked)})
+			}
+			if resizeTo > 0 && maxRunningAfter > resizeTo {
+				bad = append(bad, vScnBad{"more-tasks-running-than-new-pool-size-after-resize", fmt.Sprintf("%d tasks that started after Resize(%d) had returned ran concurrently (old size %d)", maxRunningAfter, resizeTo, size)})
 			}
 			if maxRunning > sizeLimit {
 				bad = append(bad, vScnBad{"more-tasks-running-than-pool-size", fmt.Sprintf("%d tasks ran concurrently with pool size %d (resize target %d)", maxRunning, size, resizeTo)})
@@ -128,6 +143,8 @@ func c20Scenario(name string, size int, submitters int, viaExecute bool, stopper
 	}}
 }
 
+func c20Capped(s vScn, d int) vScn { s.capD = d; return s }
+
 func c20Scenarios(thorough bool) []vScn {
 	s := []vScn{
 		c20Scenario("pool1-2submit-stop", 1, 2, false, "stop", 0),
@@ -136,6 +153,7 @@ func c20Scenarios(thorough bool) []vScn {
 		c20Scenario("pool1-2submit-grow2", 1, 2, false, "resize", 2),
 		c20Scenario("pool2-2submit-shrink1", 2, 2, false, "resize", 1),
 		c20Scenario("pool1-2submit-grow2-stop", 1, 2, false, "resize+stop", 2),
+		c20Capped(c20Scenario("pool2-3submit-shrink1", 2, 3, false, "resize", 1), 2),
 	}
 	if thorough {
 		s = append(s, c20Scenario("pool2-3submit-stop", 2, 3, false, "stop", 0), c20Scenario("pool1-4submit", 1, 4, false, "", 0))
@@ -147,7 +165,7 @@ func init() {
 	vRegister(&vCheck{
 		id: "C20", level: "model_checking", flavour: "sched", race: false,
 		shards: func(string) int { return 16 },
-		rule: "stateless model checking of the real WorkerPool (source-instrumented: every sync, atomic, channel, select, context and timer operation is a scheduling point of a controlled scheduler): scenarios with pool size 1-2, 2-4 submitters (SubmitWait or ExecuteWithWorker; each task yields once while running), a concurrent Stop and/or Resize (grow and shrink), the 50 ms submit timer as a virtual timer (fires at quiescence, or early as a deviation); every choice sequence within D-bound 3 (thorough: D-bound 4 and P-bound 2) is executed; after each execution: concurrently running tasks <= max(old,new) size, every submitter returned, an accepted task ran exactly once and its result was delivered, a refused task did not run, never (nil,true), no panic.",
+		rule: "stateless model checking of the real WorkerPool (source-instrumented: every sync, atomic, channel, select, context and timer operation is a scheduling point of a controlled scheduler): scenarios with pool size 1-2, 2-4 submitters (SubmitWait or ExecuteWithWorker; each task yields once while running), a concurrent Stop and/or Resize (grow and shrink), the 50 ms submit timer as a virtual timer (fires at quiescence, or early as a deviation); every choice sequence within D-bound 3 (thorough: D-bound 4 and P-bound 2) is executed; after each execution: concurrently running tasks <= max(old,new) size, tasks started after Resize returned <= new size, every submitter returned, an accepted task ran exactly once and its result was delivered, a refused task did not run, never (nil,true), no panic.",
 		assumptions: []string{"scheduling points are the synchronisation operations of the instrumented package; plain memory accesses between them are atomic steps (data races are outside this check)",
 			"'blocked forever' = no thread is enabled, no timer is pending within the horizon, and the thread has not finished"},
 		run: func(c *vCtx) {
